@@ -133,6 +133,18 @@ def handleWire (op : String) (args : List String) : Option String :=
       let tags := (if run false true ≠ sp then ["mu-opt"] else []) ++ (if run true false ≠ sp then ["empty-record-ref"] else [])
       some (im ++ "\t" ++ sp ++ (if im ≠ sp then "\t" ++ ",".intercalate tags else ""))
     | _, _, _ => none
+  | "nat.bounded", [_name, h, e, t, within] =>
+    match bytesOfHex h, (Sexp.parse e).bind Env.ofSexp, (Sexp.parse t).bind Ty.ofSexp with
+    | some bs, some env, some ty =>
+      -- a bounded vector accepts exactly the vectors within its limits: `within` is the limit predicate
+      -- evaluated by the harness on the untyped value
+      let r := if within = "true" then
+          (match decodeArgs bs env [ty] false false with
+           | .ok [x] => "ok (" ++ x.canon ++ ")"
+           | _ => "err")
+        else "err"
+      some (r ++ "\t" ++ r)
+    | _, _, _ => none
   | "nat.hl", [_name, _h] => some "hl\thl"
   | "wire.annotate", [fp, e, t, v] =>
     match (Sexp.parse e).bind Env.ofSexp, (Sexp.parse t).bind Ty.ofSexp, (Sexp.parse v).bind Val.ofSexp with
